@@ -244,6 +244,97 @@ fn cmd_check(prop: Prop, tier: Tier) -> i32 {
     }
 }
 
+/// Determinism of the simulator itself: every seed is run twice (on
+/// different worker threads) and the hashes of the full event history and
+/// decision list are compared; the combined digest is printed so that runs in
+/// separate processes and at other worker counts can be compared too.
+fn selfcheck_family<C: Case>(name: &str, prop: Prop, seeds: u64) -> Result<u64, String> {
+    use std::sync::atomic::{AtomicU64, Ordering};
+    let workers = common::workers();
+    let next = AtomicU64::new(0);
+    let hashes: Vec<AtomicU64> = (0..seeds).map(|_| AtomicU64::new(0)).collect();
+    let bad = std::sync::Mutex::new(None::<String>);
+    for pass in 0..2 {
+        next.store(0, Ordering::Relaxed);
+        std::thread::scope(|sc| {
+            for w in 0..workers {
+                let (next, hashes, bad) = (&next, &hashes, &bad);
+                sc.spawn(move || loop {
+                    // The second pass walks the seeds in another order so
+                    // that a seed lands on another worker at another time.
+                    let k = next.fetch_add(1, Ordering::Relaxed);
+                    if k >= seeds {
+                        break;
+                    }
+                    let i = if pass == 0 { k } else { seeds - 1 - k };
+                    let run_seed = dsim::rng::mix(&[common::verif_seed(), prop.num(), 0, i]);
+                    let mut rng = dsim::rng::Rng::new(run_seed);
+                    let scn = C::generate(&mut rng, prop, Tier::Quick);
+                    let strategy = batch::strategy_for(&mut rng, &scn);
+                    let (r, _) = batch::one_run(&scn, run_seed, strategy);
+                    let h = r.determinism_hash() | 1;
+                    let prev = hashes[i as usize].swap(h, Ordering::Relaxed);
+                    if pass == 1 && prev != h {
+                        *bad.lock().unwrap() = Some(format!(
+                            "{name}: seed index {i} (run seed {run_seed:#x}) produced two different histories ({prev:#x} vs {h:#x}) [worker {w}]; scenario {}",
+                            scn.to_json()
+                        ));
+                    }
+                });
+            }
+        });
+    }
+    if let Some(b) = bad.into_inner().unwrap() {
+        return Err(b);
+    }
+    let mut d = dsim::event::Fnv::default();
+    for h in &hashes {
+        d.u64(h.load(Ordering::Relaxed));
+    }
+    Ok(d.finish())
+}
+
+fn cmd_selfcheck() -> i32 {
+    let seeds: u64 = std::env::var("VERIF_SELFCHECK_SEEDS").ok().and_then(|s| s.parse().ok()).unwrap_or(2000);
+    let mut digests = Vec::new();
+    let fams: Vec<(&str, Prop, u8)> = vec![
+        ("pool/C06", Prop::C06, 0),
+        ("pool/C07", Prop::C07, 0),
+        ("loop/C01", Prop::C01, 1),
+        ("loop/C02", Prop::C02, 1),
+        ("loop/C03", Prop::C03, 1),
+        ("loop/C04", Prop::C04, 1),
+        ("loop/C05", Prop::C05, 1),
+        ("loop/C08", Prop::C08, 1),
+        ("loop/C11", Prop::C11, 1),
+        ("loop/C19", Prop::C19, 1),
+        ("alloc/C10", Prop::C10, 2),
+    ];
+    for (name, prop, kind) in fams {
+        let r = match kind {
+            0 => selfcheck_family::<pool::PoolScn>(name, prop, seeds),
+            1 => selfcheck_family::<looprun::LoopScn>(name, prop, seeds),
+            _ => selfcheck_family::<allocrun::AllocScn>(name, prop, seeds),
+        };
+        match r {
+            Ok(d) => {
+                println!("selfcheck {name}: {seeds} seeds x 2 runs identical, digest={d:#018x}");
+                digests.push(d);
+            }
+            Err(e) => {
+                eprintln!("HARNESS-ERROR determinism: {e}");
+                return 2;
+            }
+        }
+    }
+    let mut all = dsim::event::Fnv::default();
+    for d in digests {
+        all.u64(d);
+    }
+    println!("SELFCHECK-DIGEST workers={} seeds={seeds} {:#018x}", common::workers(), all.finish());
+    0
+}
+
 fn cmd_replay(path: &Path) -> i32 {
     let v = match batch::read_json(path) {
         Ok(v) => v,
@@ -311,6 +402,7 @@ fn main() {
                 }
             }
         }
+        Some("selfcheck") => cmd_selfcheck(),
         Some("replay") => match args.get(2) {
             Some(p) => cmd_replay(Path::new(p)),
             None => {
